@@ -54,14 +54,21 @@ def check(ctx: Ctx) -> None:
 
     with ctx.obligation("C11.b", "escalation-ladder") as ob:
         cfg = build_cfg(repo, f_term, Oracle(repo, f_term, precise=True))
-        waits = [n for n in cfg.nodes if n.kind == "test" and any(callee_attr(c) == "waitall" for c in calls_in_node(n)) and n.id in cfg.live()]
+        # WorkerPool.terminate(t) is trigger_shutdown() followed by waitall(t) (checked below on its own body)
+        WAITS = ("waitall", "terminate")
+        ft_ = repo.func(f"{GB}.WorkerPool.terminate")
+        tn = [callee_attr(c) for c in repo.calls_in(ft_)]
+        term_ok = tn == ["trigger_shutdown", "waitall"] and any(isinstance(x, ast.Return) and isinstance(x.value, ast.Call) and callee_attr(x.value) == "waitall" for x in repo.own_nodes(ft_))
+        waits = [n for n in cfg.nodes if n.kind == "test" and any(callee_attr(c) in WAITS for c in calls_in_node(n)) and n.id in cfg.live()]
         ob.require(len(waits) == 2, f"{len(waits)} bounded waitall tests in _terminate_execution (expected 2)")
         waits.sort(key=lambda n: n.line)
         budget = 0.0
         for w in waits:
-            c = [c for c in calls_in_node(w) if callee_attr(c) == "waitall"][0]
+            c = [c for c in calls_in_node(w) if callee_attr(c) in WAITS][0]
             to = arg(c, 0, "timeout")
             v = repo.fold_in(to, f_term) if to is not None else None
+            if callee_attr(c) == "terminate" and not term_ok:
+                ob.violation(f_term, c, "the ladder relies on WorkerPool.terminate(), which is no longer trigger_shutdown() followed by a bounded waitall()")
             ob.site(f_term, c, "bounded wait for the execution pool", timeout=v)
             if not isinstance(v, (int, float)) or isinstance(v, bool) or v <= 0:
                 ob.violation(f_term, c, "a wait of the termination ladder has no positive constant timeout: a worker that ignores the shutdown never reaches the next escalation step")
@@ -70,7 +77,7 @@ def check(ctx: Ctx) -> None:
         ob.site(f_term, f_term.node, f"time budget of the ladder {budget} s <= {BUDGET} s")
         if budget > BUDGET:
             ob.violation(f_term, f_term.node, f"the termination ladder may take {budget} s, more than the documented bound of about {BUDGET:.0f} s", construct=f"budget {budget}")
-        shut = cfg_nodes_with_call(cfg, lambda c: callee_attr(c) == "trigger_shutdown")
+        shut = cfg_nodes_with_call(cfg, lambda c: callee_attr(c) in ("trigger_shutdown", "terminate"))
         ob.require(len(shut) == 1, "trigger_shutdown not found in the ladder")
         if not cfg.dominated_by(waits[0].id, shut[0].id):
             ob.violation(f_term, shut[0].ast, "the pool is not told to shut down before the first wait")
@@ -81,13 +88,22 @@ def check(ctx: Ctx) -> None:
         ints = cfg_nodes_with_call(cfg, lambda c: (unparse(c.func) == "os.kill" and len(c.args) == 2 and unparse(c.args[0]) == "os.getpid()" and repo.fold_in(c.args[1], f_term) in (2,))
                                    or unparse(c.func) == "interrupt_main")
         ob.require(len(ints) >= 1, "no SIGINT / interrupt_main step in the ladder")
-        base = Facts(repo, f_term, {})
-        base.set_atom("sys.platform == 'win32'", False)
-        p = cfg.must_pass(fail_succ(waits[0]), [waits[1].id], {n.id for n in ints if any(unparse(c.func) == "os.kill" for c in calls_in_node(n))},
-                          through_edges={e for t in cfg.nodes if t.kind == "test" and "win32" in unparse(t.ast) for e in cfg.out_edges(t.id, "false")})
+        from ..terms import const as _c, evaluator as _ev
+        evt = _ev(repo, f_term)
+        WIN = ("cmp", "eq", ("sym", "sys.platform"), _c("win32"))
+        p = None
+        for (pth, st) in evt.run(limit=4000):
+            ws = [e for e in st.events if e.kind == "call" and e.attr in WAITS]
+            if len(ws) < 2:
+                continue
+            between = st.events[st.events.index(ws[0]) + 1:st.events.index(ws[1])]
+            if st.known.get(WIN) is True:
+                continue  # win32: interrupt_main() where available
+            if not any(e.kind == "call" and e.callee == "os.kill" and len(e.args) == 2 and e.args[1] == _c(2) and "getpid" in str(e.args[0]) for e in between):
+                p = pth
         ob.site(f_term, ints[0].ast, "first wait failed -> SIGINT to the own process (interrupt_main on win32) -> second wait")
         if p is not None:
-            ob.violation(f_term, waits[0].ast, "after the first failed wait the worker is not interrupted (SIGINT) before the second wait", path=cfg.describe_path(p))
+            ob.violation(f_term, waits[0].ast, "after the first failed wait the worker is not interrupted (SIGINT) before the second wait", path=evt.cfg.describe_path(p))
         if waits[1].id not in cfg.reach(fail_succ(waits[0])):
             ob.violation(f_term, waits[0].ast, "a failed first wait does not lead to the second escalation step")
         exits = cfg_nodes_with_call(cfg, lambda c: unparse(c.func) == "os._exit")
@@ -97,7 +113,7 @@ def check(ctx: Ctx) -> None:
             ob.violation(f_term, waits[1].ast, "after the second failed wait the process is not force-exited: a worker swallowing KeyboardInterrupt lives forever", path=cfg.describe_path(p))
         # the waits are on the execution pool
         for w in waits:
-            c = [c for c in calls_in_node(w) if callee_attr(c) == "waitall"][0]
+            c = [c for c in calls_in_node(w) if callee_attr(c) in WAITS][0]
             if xtext(repo, f_term, c.func.value) != "self._execpool":
                 ob.violation(f_term, c, "the ladder waits on something else than the execution pool")
 
